@@ -51,7 +51,13 @@ def main():
             f = os.path.join(outdir, f"heal{i}.txt")
             open(f, "w").close()
             victim = rt._resource_tracker._pid
-            os.kill(victim, 9)
+            try:
+                os.kill(victim, 9)
+            except (ProcessLookupError, TypeError) as e:
+                evs.append({"err": f"the client's tracker handle is inconsistent before kill {i + 1}: pid {victim!r} ({type(e).__name__})",
+                            "new_pid": victim, "warned": True, "child": None})
+                pids.append(victim)
+                break
             t0 = time.time()
             while time.time() - t0 < 20:         # the signal is asynchronous: wait until the tracker is really dead
                 try:
